@@ -392,8 +392,24 @@ def setup_main():
     return 0 if ok else 1
 
 
+def ambient_main():
+    """diagnostic, not a registered check: the repository's own tests as a workload with cheap post-conditions attached"""
+    root = repo_root()
+    out = tempfile.mktemp(prefix='rv_ambient_', suffix='.json')
+    env = dict(os.environ, PYTHONPATH=root + os.pathsep + VERIF, RV_AMBIENT_OUT=out, PYTHONDONTWRITEBYTECODE='1')
+    p = subprocess.run([PY, '-B', '-m', 'pytest', '-q', '-p', 'no:cacheprovider', '-p', 'rv.ambient', os.path.join(root, 'tests')],
+                       cwd=root, env=env, capture_output=True, text=True)
+    print('\n'.join(p.stdout.splitlines()[-14:]))
+    rep = json.load(open(out)) if os.path.exists(out) else {'violations': ['no report written'], 'probe_calls': {}}
+    if os.path.exists(out):
+        os.remove(out)
+    return 1 if rep['violations'] else 0
+
+
 def main():
     a = sys.argv[1:]
+    if a and a[0] == 'ambient':
+        return ambient_main()
     if a and a[0] == '--shard':
         shard_main(a[1:])
         return 0
